@@ -114,9 +114,19 @@ def dyn_name(n, env):
     if k == "ref":
         return n["n"]
     if k == "mem":
+        if n.get("arrow"):
+            pv = _ptr_value(n["b"], env)
+            if pv is not None:
+                return "%s[%d].%s" % (pv[1], pv[2], n["f"])
         b = dyn_name(n["b"], env)
         return None if b is None else b + ("->" if n.get("arrow") else ".") + n["f"]
     if k == "idx":
+        pv = _ptr_value(n["b"], env)
+        if pv is not None:
+            try:
+                return "%s[%d]" % (pv[1], pv[2] + evs(n["i"], env, None))
+            except (Unsupported, KeyError, TypeError):
+                return None
         b = dyn_name(n["b"], env)
         if b is None:
             return None
@@ -126,8 +136,21 @@ def dyn_name(n, env):
             return None
         return "%s[%s]" % (b, i)
     if k == "un" and n.get("op") == "*":
+        pv = _ptr_value(n["e"], env)
+        if pv is not None:
+            return "%s[%d]" % (pv[1], pv[2])
         b = dyn_name(n["e"], env)
         return None if b is None else "*" + b
+    return None
+
+
+def _ptr_value(n, env):
+    """("P", array, index) when the expression is a variable holding a modelled pointer into an array"""
+    n = strip(n)
+    if isinstance(n, dict) and n.get("k") == "ref":
+        v = env.get(n["n"])
+        if isinstance(v, tuple) and len(v) == 3 and v[0] == "P":
+            return v
     return None
 
 
@@ -168,7 +191,8 @@ def evs(n, env, events=None):
         if op in ("post++", "post--", "pre++", "pre--"):
             nm = lv_slot(n["e"], env)
             old = env[nm]
-            env[nm] = old + (1 if "++" in op else -1)
+            d = 1 if "++" in op else -1
+            env[nm] = ("P", old[1], old[2] + d) if isinstance(old, tuple) and old and old[0] == "P" else old + d
             return old if op.startswith("post") else env[nm]
         v = evs(n["e"], env, events)
         if op == "!":
@@ -196,6 +220,9 @@ def evs(n, env, events=None):
         op = n["op"]
         if op == "=":
             env[nm] = v
+        elif isinstance(env.get(nm), tuple) and env[nm] and env[nm][0] == "P" and op in ("+=", "-="):
+            old = env[nm]
+            env[nm] = ("P", old[1], old[2] + (v if op == "+=" else -v))
         else:
             old = env[nm]
             env[nm] = {"+=": old + v, "-=": old - v, "*=": old * v, "/=": int(old / v) if v else 0,
@@ -215,6 +242,12 @@ def evs(n, env, events=None):
         a, b = evs(n["a"], env, events), evs(n["b"], env, events)
         if op in ("/", "%") and b == 0:
             raise Unsupported("division by zero")
+        if isinstance(a, tuple) and a and a[0] == "P" and op in ("+", "-") and isinstance(b, int):
+            return ("P", a[1], a[2] + (b if op == "+" else -b))
+        if isinstance(a, tuple) or isinstance(b, tuple):
+            if op in ("==", "!="):
+                return int((a == b) == (op == "=="))        # a modelled pointer never equals an integer (NULL)
+            raise Unsupported("pointer arithmetic " + op)
         f = {"+": lambda: a + b, "-": lambda: a - b, "*": lambda: a * b, "/": lambda: int(a / b),
              "%": lambda: a - int(a / b) * b, "<": lambda: int(a < b), ">": lambda: int(a > b),
              "<=": lambda: int(a <= b), ">=": lambda: int(a >= b), "==": lambda: int(a == b),
